@@ -367,6 +367,10 @@ pub fn run(subj: Box<dyn Subject>) -> EndKind {
         let n = w.children.len();
         let leaked: Vec<usize> = with_drops(|d| (0..n).filter(|&i| d.children[i] == 0).collect());
         if !leaked.is_empty() {
+            // C06: the losers of a finished race are dropped together with the race future
+            if w.combs[0].fam == Fam::Race && w.combs[0].last == Last::Final {
+                w.violate(6, || format!("children {:?} of the finished race were still alive after the race future had been dropped", leaked));
+            }
             w.violate(2, || format!("children {:?} were not dropped by the time the drop of the combinator returned", leaked));
             if w.combs[0].fam == Fam::Co {
                 let home = w.combs[0].home;
@@ -408,6 +412,19 @@ pub fn run(subj: Box<dyn Subject>) -> EndKind {
             for (i, &c) in d.vals.iter().enumerate() {
                 if c != 1 {
                     let o = d.val_origin[i];
+                    // family clauses about values that are dropped rather than returned
+                    let k0 = &w.combs[0];
+                    let fam_prop = match k0.fam {
+                        Fam::TryJoin if k0.final_err && !d.val_returned[i] => 5,
+                        Fam::Zip if k0.last == Last::Final && !d.val_returned[i] => 9,
+                        _ => 0,
+                    };
+                    if fam_prop != 0 && w.violations.len() < 8 {
+                        w.violations.push(Violation {
+                            prop: fam_prop,
+                            msg: format!("value {} (produced by child {}, seq {}) was not returned and was dropped {} times instead of exactly once", i, o.0, o.1, c),
+                        });
+                    }
                     if w.violations.len() < 8 {
                         w.violations.push(Violation {
                             prop: 2,
